@@ -26,6 +26,13 @@ CLAIMED = {
         "Trusts the shipped table as the definition of 'supported' (cross-checked: mutually inverse, ascending, every entry has a data file with that many points) and np.load.",
         "DESIGN.md 3/C12",
     ),
+    "C02": (
+        "exploration",
+        "complete enumeration of all 450 shipped (method, degree, size) grids x every real spherical harmonic (l,m), l<=degree, against an independent float64 harmonic recursion (self-validated against a multiprecision definition)",
+        "The space is finite: thorough enumerates it completely (9.1e6 moments = 2.5e11 point-harmonic evaluations, 2 min on 16 cores); quick takes every grid, all l for grids below a cost cap and l<=30 for the largest, and reports the cap.",
+        "Trusts the float64 recursion oracle (start-up self-test vs mpmath definition, Cartesian closed forms, addition theorem to l=330) and treats 1e-10*sqrt(4pi) as data rounding noise.",
+        "DESIGN.md 3/C02",
+    ),
 }
 
 NOT_YET = "check not built yet in this session (work in progress; see DESIGN.md section 8 for the order of work)"
